@@ -102,8 +102,14 @@ func (e *BaseParserError) FriendlyErrorMessage() string {
 		msg.WriteString(fmt.Sprintf("location: %s", friendlyLoc))
 	}
 	msg.WriteString("\n" + e.SourceCode() + "\n")
-	pad := strings.Repeat(" ", colStart-1)
-	msg.WriteString(pad + strings.Repeat("^", colEnd-colStart+1))
+	// The end position may be on a later line than the start position (or
+	// missing), in which case only the start column is marked
+	width := colEnd - colStart + 1
+	if width < 1 || end.LineNumber() != lineNum {
+		width = 1
+	}
+	pad := strings.Repeat(" ", max(colStart-1, 0))
+	msg.WriteString(pad + strings.Repeat("^", width))
 	return msg.String()
 }
 
